@@ -33,7 +33,7 @@ fn dir_pairs(thorough: bool) -> Vec<([f64; 3], [f64; 3], &'static str)> {
             v.push((*a, rot(x), "generic"));
         }
         v.push((*a, bases[(i * 7 + 3) % bases.len()], "generic"));
-        for x in [1e-1, 1e-2, 1e-3, 1e-4] {
+        for x in [1e-1, 1e-2, 5e-3, 3e-3, 2e-3, 1e-3, 1e-4] {
             v.push((*a, rot(PI - x), "nearly opposite"));
         }
         v.push((*a, [-a[0], -a[1], -a[2]], "exactly opposite"));
@@ -200,6 +200,15 @@ macro_rules! vec3_steer {
             acc.eval(true, r[0].to_bits() ^ r[2].to_bits().rotate_left(13));
             let want_len = la + (lb - la) * sf;
             env(acc, &format!("{tn}::slerp(length)"), norm(&r), want_len.abs(), (16.0 * eps + tol) * (la.max(lb)) * (1.0 + sf.abs()), &ctx);
+            // both endpoints are reached for every pair, nearly opposite ones included: at s = 0 and
+            // s = 1 one sine weight is exactly 0 and the other cancels against 1/sin(theta), so the
+            // only error is rounding plus, in the opposite-direction fallback, the angle pi - theta
+            // itself, which that branch is entered only for (pi - theta)^2 of order eps: eps / sin(theta)
+            if sf == 0.0 || sf == 1.0 {
+                let end = if sf == 0.0 { &a } else { &b };
+                let te = 16.0 * eps / theta.sin().abs().max(eps.sqrt()) + 16.0 * eps;
+                env(acc, &format!("{tn}::slerp(reaches the endpoint)"), norm(&sub(&r, end)) / norm(end), 0.0, te, &ctx);
+            }
             if (0.0..=1.0).contains(&sf) && want_len > 0.0 {
                 env(acc, &format!("{tn}::slerp(angle from start)"), angle(&a, &r), sf * theta, tol + 8.0 * eps, &ctx);
                 if theta < PI - 0.05 {
@@ -275,6 +284,15 @@ macro_rules! move_clamp {
             let (a, b) = (f64s(&va), f64s(&vb));
             let dist = norm(&sub(&b, &a));
             let step = [0.0, 1e-6 * sc, 0.5 * dist, dist * (1.0 - 1e-6), dist, dist * (1.0 + 1e-6), 2.0 * dist + 1.0, 1e-5][d[3]];
+            if d[3] == 4 {
+                // a step bit-identical to the remaining distance as the library itself computes it is
+                // "within reach": the target itself, exactly
+                for lib_d in [va.distance(vb), vb.distance(va), (vb - va).length()] {
+                    let r = va.move_towards(vb, lib_d);
+                    acc.eval(true, 4);
+                    if f64s(&r) != f64s(&vb) { acc.fail(&format!("{tn}::move_towards(step equal to the distance returns the target)"), format!("a={:?} b={:?} d={:e} got={:?}", f64s(&va), f64s(&vb), lib_d, f64s(&r))); }
+                }
+            }
             let stepf = step as $S as f64;
             let ctx = || format!("a={:?} b={:?} d={:e} distance={:e}", a, b, stepf, dist);
             let r = f64s(&va.move_towards(vb, step as $S));
